@@ -82,11 +82,27 @@ func (o *operations) Done() {
 	enqueued := o.tryEnqueue(func() {
 		wg.Done()
 	})
+	busyCh := o.busyCh
 	o.mu.Unlock()
 	if !enqueued {
+		// the queue is closed: no waiter can be queued behind the pending
+		// operations, so wait for the worker to run them instead.
+		o.waitUntilIdle(busyCh)
+
 		return
 	}
 	wg.Wait()
+}
+
+// waitUntilIdle blocks until no worker is left. The worker may hand off to a
+// fresh one (with a fresh busyCh) in between, so the channel is re-read.
+func (o *operations) waitUntilIdle(busyCh chan struct{}) {
+	for busyCh != nil {
+		<-busyCh
+		o.mu.Lock()
+		busyCh = o.busyCh
+		o.mu.Unlock()
+	}
 }
 
 // GracefulClose waits for the operations queue to be cleared and forbids
@@ -105,14 +121,8 @@ func (o *operations) GracefulClose() {
 
 	busyCh := o.busyCh
 	o.mu.Unlock()
-	// wait until every operation that was accepted before the close has run:
-	// the worker may hand off to a fresh one (with a fresh busyCh) in between.
-	for busyCh != nil {
-		<-busyCh
-		o.mu.Lock()
-		busyCh = o.busyCh
-		o.mu.Unlock()
-	}
+	// wait until every operation that was accepted before the close has run
+	o.waitUntilIdle(busyCh)
 }
 
 func (o *operations) pop() func() {
